@@ -212,9 +212,16 @@ def gen_waits():
     progs = {}
     # a private helper whose body reads the reference count is a liveness read where it is called
     global ALIVE
-    ALIVE = ALIVE0 + [r"\.%s\s*\(" % n for (_, n, fb) in bodies
-                      if re.search(r"strong_count", fb) and n not in ("wait_for_read", "wait_for_write", "eof", "wait", "closed")
-                      and len(fb) < 200]
+    # (transitively: `sole_owner()` calling `refcount()` calling `Arc::strong_count`), computed as a fixpoint
+    ALIVE = list(ALIVE0)
+    while True:
+        more = [r"\.%s\s*\(" % n for (_, n, fb) in bodies
+                if any(re.search(p, fb) for p in ALIVE)
+                and n not in ("wait_for_read", "wait_for_write", "eof", "wait", "closed") and len(fb) < 200]
+        more = [m for m in more if m not in ALIVE]
+        if not more:
+            break
+        ALIVE += more
     b = find_fn(bodies, r"^<T: Copy> ReadStream<T>$", "wait_for_read")
     progs["readWait"] = order_of(b, ALIVE, [r"\.wait_for_read\("])
     b = find_fn(bodies, r"^<T: Copy> WriteStream<T>$", "wait_for_write")
